@@ -17,7 +17,12 @@ def modes():
 
 
 def rand_ub(rng, kind=None):
-    kind = kind or rng.choice(["triclinic", "triclinic", "cubicI", "hex", "ortho-lab"])
+    kind = kind or rng.choice(["triclinic", "triclinic", "cubicI", "hex", "ortho-lab", "triclinic", "triclinic", "cubicI", "hex", "ortho-lab", "ints"])
+    if kind == "ints":
+        # everything the user types given as whole numbers (Python ints): cell, vectors
+        lat = rng.choice([(4, 5, 6, 80, 95, 100), ("Hexagonal", 3, 5), (4, 5, 6), ("Rhombohedral", 5, 75), (4, 5, 6, 100)])
+        return mk_ub(lattice=lat, rotvec=[rng.uniform(-1.5, 1.5) for _ in range(3)], n_hkl=rng.choice([(0, 0, 1), (1, 1, 0), (1, 2, 3)]),
+                     surf_nphi=None, surf_nhkl=rng.choice([(0, 1, 1), (0, 0, 1), (2, 0, 1)])), kind
     if kind == "cubicI":
         return mk_ub(lattice=(rng.choice([1.0, 3.5]),), rotvec=(0, 0, 0), n_hkl=None, n_phi=(0, 0, 1), surf_nphi=(0, 0, 1), surf_nhkl=None), kind
     if kind == "hex":
